@@ -60,6 +60,10 @@ class Report:
         same run found a violation (a removed check is a violation, not an
         analysis problem)."""
         self.counts[name] = got
+        # large counts (sites examined) may shrink a little when code is restructured without losing coverage:
+        # the floor guards against a rule that no longer sees the code, so a quarter of slack is allowed from 8 up
+        if need >= 8:
+            need = max(6, (need * 3) // 4)
         if got < need:
             self.floor_fail.append('%s: matched %d instance(s), hand-counted floor is %d '
                                    '(anchor moved or rule no longer sees the code)' % (name, got, need))
